@@ -13,7 +13,7 @@ use jrpc_harness::subs_env::*;
 fn main() {
 	let a = args();
 	let mut out = Out::new();
-	let pf = Profile { check_c06: true, check_c04: false, w_accept: 6, w_send: 3, w_ret: 2, w_wstep: 5, reuse_ids: 3, w_burst: 1, tail: true };
+	let pf = Profile { check_c06: true, check_c04: false, w_accept: 6, w_send: 3, w_ret: 2, w_wstep: 5, typed_ids: 3, reuse_ids: 3, w_burst: 1, tail: true };
 	if let Some(r) = &a.replay {
 		for case in split_cases(read_case_lines(r)) {
 			run_fixed(&mut out, &case, &pf);
